@@ -4,11 +4,13 @@ import (
 	"fmt"
 	"os"
 
+	"golang.org/x/tools/go/ssa"
+
 	"upfcheck/internal/core"
 	"upfcheck/internal/rules"
 )
 
-// developer aid: dbg <repo> [carried|tables]
+// developer aid: dbg <repo> [carried|tables|reffuncs <file>|inlined]
 func main() {
 	repo, what := "/repo", "carried"
 	if len(os.Args) > 1 {
@@ -17,11 +19,24 @@ func main() {
 	if len(os.Args) > 2 {
 		what = os.Args[2]
 	}
+	if what == "reffuncs" {
+		if err := core.WriteRefFuncs(repo, os.Args[3]); err != nil {
+			panic(err)
+		}
+		return
+	}
 	p, err := core.Load(repo)
 	if err != nil {
 		panic(err)
 	}
 	switch what {
+	case "inlined":
+		for n := range core.NewFunctions {
+			fmt.Println("new:", n)
+		}
+		for n, k := range ssa.InlinedCalls {
+			fmt.Println("expanded:", n, k)
+		}
 	case "tables":
 		rules.DumpTables(p)
 	default:
